@@ -214,7 +214,7 @@ def exS : Sizes :=
     delta := 352, simple := 144, simpleX86 := 8, index := 80, indexStream := 168, indexGroup := 64, indexRecord := 16,
     optLzma := 112, optDelta := 40, optBcj := 4, strAlloc := 800, indexGroupSize := 512, dictRepeatMax := 288, dictExtra := 32,
     memcmplenExtra := 8, opts := 4096, loopInputMax := 4097, matchLenMax := 273, lzma2ChunkMax := 65536, hash2Size := 1024,
-    hash3Size := 65536 }
+    hash3Size := 65536, memusageBase := 32768 }
 
 def exChain : Chain := [.bcj 0 none, .delta 4, .lzma true 65536 4 32 1]
 
@@ -222,7 +222,7 @@ def exChain : Chain := [.bcj 0 none, .delta 4, .lzma true 65536 4 32 1]
     with the 9th allocation failing the init reports LZMA_MEM_ERROR, later calls still work, and at the end
     the heap is empty and `bad` is false. -/
 def exHistory : List Op :=
-  [.streamEncoder exChain, .encode exChain 0 100, .streamDecoder, .decode (.xz exChain 2 1) 0, .aloneDecoder,
+  [.streamEncoder exChain, .encode exChain 0 100, .streamDecoder NOLIMIT, .decode (.xz exChain 2 1) 0, .aloneDecoder,
    .decode (.lzma 65536) 0, .ixInit 0, .ixAppend 0 3, .ixDup 1 0, .ixCat 0 1]
 
 example : ((runOps exS exHistory {} >>= fun r => cleanup r.2) (fun k => k == 9) {}).2.live = [] := by decide +kernel
